@@ -501,7 +501,7 @@ pub fn run(ctx: &Ctx) -> Rep {
                         }
                         check_text(&mut st, &s);
                         n_texts += 1;
-                        if ctx.smoke() && n_texts > 200 {
+                        if ctx.smoke() && n_texts > 40 {
                             break;
                         }
                     }
@@ -541,7 +541,7 @@ pub fn run(ctx: &Ctx) -> Rep {
         };
         let ranks: Vec<char> = "AaKkQqJjTt098765432".chars().collect();
         let suits: Vec<char> = "SsHhDdCc♠♤♥♡♦♢♣♧".chars().collect();
-        let step = if ctx.smoke() { 5 } else { 1 };
+        let step = if ctx.smoke() { 9 } else { 1 };
         let mut seqs = 0u64;
         for &r in ranks.iter().step_by(step) {
             for &s in suits.iter().step_by(step) {
@@ -553,7 +553,10 @@ pub fn run(ctx: &Ctx) -> Rep {
                 for a in aliases(s) {
                     variants.push([r, a].iter().collect());
                 }
-                for v in &variants {
+                for (vi, v) in variants.iter().enumerate() {
+                    if ctx.smoke() && vi % 8 != 0 {
+                        continue;
+                    }
                     check_token(&mut st, &t);
                     check_token(&mut st, v);
                     check_token(&mut st, &t);
